@@ -99,7 +99,12 @@ func hash32(s string) uint32 {
 // EchoCells are the cells the simulator derives from an operation id.
 func EchoCells(row []byte, opid string) []Cell {
 	n := 1 + int(hash32(opid)%3)
-	out := make([]Cell, 0, n)
+	out := make([]Cell, 0, n+1)
+	if hash32(opid+"/q")%4 == 0 {
+		// one answer in four starts with the column that has an empty qualifier
+		out = append(out, Cell{Row: row, Family: []byte("echo"), Qualifier: []byte{}, TS: 7, Type: TypePut,
+			Value: []byte(fmt.Sprintf("ack:%s:%x:-", opid, row))})
+	}
 	for i := 0; i < n; i++ {
 		out = append(out, Cell{Row: row, Family: []byte("echo"), Qualifier: []byte(fmt.Sprintf("%s/%d", opid, i)),
 			TS: 7, Type: TypePut, Value: []byte(fmt.Sprintf("ack:%s:%x:%d", opid, row, i))})
